@@ -9,6 +9,7 @@ structure ParseCase where
   target : Nat
   tables : Tables
   ghost : Bool
+  maxCalls : Nat
 
 def findArg (name : String) (l : List Sexp) : Option (List Sexp) :=
   l.findSome? (fun e => match e with
@@ -24,7 +25,8 @@ def parseCase (args : List Sexp) : Option ParseCase := do
   let target ← match ← findArg "target" args with | [k] => k.nat? | _ => none
   let tables ← parseTables ((findArg "params" args).getD [])
   let ghost := match findArg "ghost" args with | some [.atom "0"] => false | _ => true
-  some { env, root, files, target, tables, ghost }
+  let maxCalls := match findArg "budget" args with | some [k] => k.nat?.getD 0 | _ => 60000
+  some { env, root, files, target, tables, ghost, maxCalls }
 
 /-- builds the file set the way the harness does: every file is added in order; the target is parsed -/
 def buildFiles (files : List (String × Bytes)) : FileSet × List File :=
@@ -46,6 +48,18 @@ def ghostSummary (st : St) : String :=
   let ff := if fails.isEmpty then "-" else toString (maxList fails)
   s!"maxdepth={maxList depths};bodyruns={maxList runs};ffail={ff};nobody={hits + curt}"
 
+/-- nodes of a result rendered as trees, counted with a cut-off (a shared forest can be exponentially large as trees) -/
+partial def countNodes (budget : Nat) : List Node → Option Nat
+  | [] => some budget
+  | n :: rest =>
+    if budget = 0 then none else
+    match n with
+    | .nt _ cs _ _ _ =>
+      match countNodes (budget - 1) cs with
+      | none => none
+      | some b => countNodes b rest
+    | _ => countNodes (budget - 1) rest
+
 def runParse (args : List Sexp) : String :=
   match parseCase args with
   | none => "bad-input"
@@ -54,17 +68,18 @@ def runParse (args : List Sexp) : String :=
     match files[c.target]? with
     | none => "bad-input"
     | some f =>
-      let cfg : Cfg := { env := c.env, file := f, fileSet := fs, params := c.tables.params, ghost := c.ghost }
+      let cfg : Cfg := { env := c.env, file := f, fileSet := fs, params := c.tables.params, ghost := c.ghost, maxCalls := c.maxCalls }
       let t := c.tables
       let direct := match run cfg driverFuel c.root [] (f.pos 0) {} with
-        | none => "out-of-fuel"
+        | none => "over-budget"
         | some (o, st) =>
+          if (countNodes 4000 o.res.alts).isNone then "over-budget" else
           s!"res={showRes t o.res};cp={showNats o.cp};err={showErr o.err};ctxerr={showErr st.ctxErr};calls={st.calls}" ++
             (if c.ghost then ";" ++ ghostSummary st else "")
       let viaParse := match parse cfg driverFuel c.root with
         | none => "out-of-fuel"
         | some p =>
           s!"node={showRes t p.res};msg={match p.msg with | some m => showBytes m | none => "-"};calls={p.st.calls}"
-      "R:" ++ direct ++ "|P:" ++ viaParse
+      if direct == "over-budget" then "over-budget" else "R:" ++ direct ++ "|P:" ++ viaParse
 
 end Driver
